@@ -1795,6 +1795,7 @@ func c18(r *core.Run) {
 	c18R8(r)
 	c18R9b(r, inPkg) // D5/K1/manager-created-recorded-or-closed, D3/K2/return-pairs-with-completed-borrow (c18_r9b.go)
 	c18R10(r, inPkg) // D4/K3/pool-destroy-before-budget-reuse (c18_r10.go)
+	c18R11(r, la)    // D5/K3/managed-discard-only-the-compared-current (c18_r11.go)
 
 	r.Check("D5/K5/donechan-close-once", "the done channel of DoneChan is closed only inside the function passed to DoneChan.once.Do", func(o *core.O) {
 		isClose := c18Builtin("close", core.FieldLoad("DoneChan.done"))
